@@ -8,11 +8,11 @@ KINDS = [  # (src, xf, addressable)
     ('src_gray8step', 'xf_id', 1), ('src_gray8step', 'xf_flipud', 1),
     ('src_bgr232', 'xf_id', 1), ('src_bgr232', 'xf_fliplr', 1), ('src_bgr232', 'xf_rot90ccw', 1), ('src_gray1', 'xf_id', 1), ('src_gray1', 'xf_subimage', 1),
     ('src_rgb565', 'xf_id', 1), ('src_rgb16i', 'xf_rot90cw', 1),
-    ('src_virtual', 'xf_id', 0), ('src_virtual', 'xf_transposed', 0), ('src_deref', 'xf_id', 0),
+    ('src_virtual', 'xf_id', 0), ('src_virtual', 'xf_transposed', 0), ('src_virtual', 'xf_fliplr', 0), ('src_virtual', 'xf_subsampled', 0), ('src_virtual', 'xf_rot180', 0), ('src_virtual', 'xf_rot90ccw', 0), ('src_deref', 'xf_id', 0),
 ]
 QUICK = {('src_rgb8i', 'xf_id'), ('src_rgb8i', 'xf_flipud'), ('src_rgb8i', 'xf_fliplr'), ('src_rgb8i', 'xf_transposed'), ('src_rgb8i', 'xf_subimage'),
          ('src_rgb8p', 'xf_id'), ('src_rgb8p', 'xf_rot180'), ('src_gray8step', 'xf_id'), ('src_bgr232', 'xf_id'), ('src_bgr232', 'xf_fliplr'),
-         ('src_gray1', 'xf_subimage'), ('src_virtual', 'xf_id')}
+         ('src_gray1', 'xf_subimage'), ('src_virtual', 'xf_id'), ('src_virtual', 'xf_fliplr'), ('src_virtual', 'xf_subsampled'), ('src_virtual', 'xf_rot90ccw')}
 def queries(tier, seed):
     qs = []
     for s, f, a in KINDS:
